@@ -270,6 +270,19 @@ class Analysis:
             if imm and not ri["imm"]:
                 ri["imm"] = True
 
+    def shared_imm(self, r):
+        """region r lies behind a shared reference to data without interior mutability"""
+        if r is None:
+            return False
+        ri = self.region_info.get(r)
+        if ri is not None and ri["imm"]:
+            return True
+        best = None
+        for q, qi in self.region_info.items():
+            if is_prefix(q, r) and (best is None or len(q) > len(best)):
+                best = q
+        return best is not None and self.region_info[best]["imm"]
+
     def region_protected(self, r):
         """writes through other pointers / by callees cannot change this region:
         it lies behind a shared reference to a type without interior
@@ -284,7 +297,7 @@ class Analysis:
             if best is None:
                 return False
             bi = self.region_info[best]
-            if bi["imm"] and "#" not in r[len(best):]:
+            if bi["imm"]:
                 return True
             return False
         if ri["imm"]:
